@@ -280,3 +280,34 @@ theorem delWait_fold_spec (ids : List Nat) (u : Addr) (h : HubSt) :
 
 end HubSt
 end Krp
+
+namespace Krp
+namespace HubSt
+
+/-- characterisation of a successful WithdrawUnbonded -/
+theorem withdraw_spec (h h' : HubSt) (e : HubEnv) (sender : Addr) (ms : List Msg)
+    (hx : h.withdraw e sender = .ok (h', ms)) :
+    h.unbonding ≤ e.now ∧
+    ∃ h1, h.processWithdrawRate (e.now - h.unbonding) e.hubBalance = .ok h1 ∧
+      (h1.finished sender).1 ≠ 0 ∧ (h1.finished sender).1 ≤ e.hubBalance ∧
+      h' = { ((h1.finished sender).2.foldl (fun hh i => hh.delWait sender i) h1) with
+               prevHubBalance := e.hubBalance - (h1.finished sender).1 } ∧
+      ms = [Msg.bankSend e.self sender 0 (h1.finished sender).1] := by
+  unfold withdraw at hx
+  split at hx
+  · cases hx
+  · rename_i hnow
+    split at hx
+    · cases hx
+    · rename_i h1 hp
+      split at hx
+      · cases hx
+      · rename_i hne
+        split at hx
+        · cases hx
+        · rename_i hle
+          injection hx with hx; injection hx with e1 e2
+          exact ⟨by omega, h1, hp, hne, by omega, e1.symm, e2.symm⟩
+
+end HubSt
+end Krp
